@@ -65,4 +65,51 @@ theorem moreValuable_eq (a b : TxCache.Tx) :
       | (exfalso; simp_all; omega)
 
 
+/-! ### the price per gas unit itself (C03: "floor(fee / gasLimit) for every fee the host can return") -/
+
+theorem pricePerUnit_leaves : Gen.pricePerUnit_leaves = ["fee : Int", "gasLimit : Int"] := rfl
+
+/-- `computePricePerUnit` (math/big code path included) returns the exact quotient ⌊fee / gasLimit⌋ saturated at 2^64 − 1 — the
+    64-bit field the comparator reads first; together with `moreValuable_eq` (exact quotients compared when saturated) the
+    ordering is by the exact, unbounded price per unit -/
+theorem pricePerUnit_eq (t : TxCache.Tx) (hg : t.gasLimit ≠ 0) :
+    Gen.pricePerUnit t.fee t.gasLimit = sat64 (t.ppu TxCache.Variant.current) := by
+  have hp : t.ppu TxCache.Variant.current = t.fee / t.gasLimit := by
+    unfold TxCache.Tx.ppu; simp [TxCache.Variant.current, hg]
+  rw [hp]
+  have hq : ((t.fee : Int) / (t.gasLimit : Int)) = ((t.fee / t.gasLimit : Nat) : Int) := (Int.natCast_ediv _ _).symm
+  generalize hqq : t.fee / t.gasLimit = q at hq
+  unfold Gen.pricePerUnit Gen.cmpInt sat64
+  by_cases hf : t.fee < 18446744073709551616
+  · have h1 : (decide ((0 : Int) ≤ (t.fee : Int)) && decide ((t.fee : Int) < 18446744073709551616)) = true := by
+      simp only [Bool.and_eq_true, decide_eq_true_eq]; omega
+    have hmod : (t.fee : Int) % 18446744073709551616 = (t.fee : Int) := Int.emod_eq_of_lt (by omega) (by omega)
+    rw [if_pos h1, hmod, hq]
+    have hql : q ≤ t.fee := by rw [← hqq]; exact Nat.div_le_self _ _
+    split <;> omega
+  · have h1 : (decide ((0 : Int) ≤ (t.fee : Int)) && decide ((t.fee : Int) < 18446744073709551616)) = false := by
+      simp only [Bool.and_eq_false_iff, decide_eq_false_iff_not]; right; omega
+    have h2 : ¬ (decide ((if (t.fee : Int) < 0 then (-1 : Int) else if (0 : Int) < (t.fee : Int) then 1 else 0) < 0) = true) := by
+      simp only [decide_eq_true_eq]
+      have : (0 : Int) < (t.fee : Int) := by omega
+      rw [if_neg (by omega), if_pos this]; omega
+    rw [if_neg (by rw [h1]; exact Bool.false_ne_true), if_neg h2]
+    dsimp only
+    rw [hq]
+    by_cases hq64 : q < 18446744073709551616
+    · have h3 : (decide ((0 : Int) ≤ (q : Int)) && decide ((q : Int) < 18446744073709551616)) = true := by
+        simp only [Bool.and_eq_true, decide_eq_true_eq]; omega
+      have hmod : (q : Int) % 18446744073709551616 = (q : Int) := Int.emod_eq_of_lt (by omega) (by omega)
+      rw [if_pos h3, hmod]
+      split <;> omega
+    · have h3 : (decide ((0 : Int) ≤ (q : Int)) && decide ((q : Int) < 18446744073709551616)) = false := by
+        simp only [Bool.and_eq_false_iff, decide_eq_false_iff_not]; right; omega
+      rw [if_neg (by rw [h3]; exact Bool.false_ne_true)]
+      split <;> omega
+
+/-- a gas limit of 0 leaves the field at its zero value (`precomputeFields` does not call `computePricePerUnit`), which is the
+    model's `ppu = 0` -/
+theorem ppu_zero_gas (t : TxCache.Tx) (hg : t.gasLimit = 0) : t.ppu TxCache.Variant.current = 0 := by
+  unfold TxCache.Tx.ppu; simp [hg]
+
 end SV.GenProofs
